@@ -132,9 +132,7 @@ pub fn case_strategy() -> BoxedStrategy<Case> {
             // contexts excluded by construction because of a known defect stay in view through a
             // few single-context cases
             let big = v >= ipow2(55) || v < -ipow2(55);
-            let only = if big && k % 50 == 7 {
-                Some("char_code_big".to_string())
-            } else if big && k % 25 == 3 {
+            let only = if big && k % 25 == 3 {
                 Some(if k % 2 == 0 { "clause_select_big" } else { "clause_select_rev_big" }.to_string())
             } else {
                 None
